@@ -802,3 +802,273 @@ Proof.
     destruct (Hi Hnb0) as [Hg Hh]. apply H; assumption. }
   split; [exact Hcg | apply Inv_step; assumption].
 Qed.
+
+(* ================================================================== *)
+(** * B0. Pure facts about what the commands write and read *)
+
+(** ** items: induction principle, leaf ids *)
+Section ItemInd.
+  Variable P : item -> Prop.
+  Hypothesis Hf : forall n id, P (IFile n id).
+  Hypothesis Hd : forall n sub, Forall P sub -> P (IDir n sub).
+  Fixpoint item_ind2 (i : item) : P i :=
+    match i with
+    | IFile n id => Hf n id
+    | IDir n sub =>
+        Hd n sub ((fix go (l : list item) : Forall P l :=
+                     match l with
+                     | [] => Forall_nil P
+                     | x :: r => Forall_cons x (item_ind2 x) (go r)
+                     end) sub)
+    end.
+End ItemInd.
+
+Fixpoint leaves_item (i : item) : list bytes :=
+  match i with
+  | IFile _ id => [id]
+  | IDir _ sub => flat_map leaves_item sub
+  end.
+Definition leaves (its : list item) : list bytes := flat_map leaves_item its.
+
+Lemma leaves_flat_item : forall i pre, map e_id (flat_item pre i) = leaves_item i.
+Proof.
+  intro i. induction i as [n id | n sub IH] using item_ind2; intro pre.
+  - reflexivity.
+  - cbn [flat_item leaves_item]. generalize (join_path pre n). intro q.
+    induction IH as [|x r Hx Hr IHr]; [reflexivity|].
+    cbn [flat_map]. rewrite map_app, Hx, IHr. reflexivity.
+Qed.
+
+Lemma leaves_flat : forall its pre, map e_id (flat_items pre its) = leaves its.
+Proof.
+  induction its as [|i its IH]; intro pre; [reflexivity|].
+  unfold flat_items, leaves in *. cbn [flat_map]. rewrite map_app, leaves_flat_item, IH. reflexivity.
+Qed.
+
+(** ** a tree whose sub-trees are readable and whose files are stored is good *)
+Lemma ser_tree_good : forall st its,
+  Forall wf_item its -> Forall (blob_ok st) (leaves its) ->
+  (forall x, In x (subsl its) -> get_kind st KTree (obj_id KTree x) = Some x) ->
+  tree_good st (ser its).
+Proof.
+  intros st its Hwf Hleaves Hsubs. exists (map triple its). split.
+  - apply parse_items_ser; [exact Hwf|]. pose proof (ser_length its Hwf). lia.
+  - apply Forall_forall. intros it Hin. apply in_map_iff in Hin. destruct Hin as (i & <- & Hi).
+    rewrite Forall_forall in Hwf. pose proof (Hwf i Hi) as Hwi.
+    destruct i as [n id | n sub]; cbn [triple item_good].
+    + inversion Hwi as [? ? Hn Hid|]; subst. split; [exact Hn|].
+      change (bytes_eqb mode_file mode_dir) with false. cbv iota.
+      rewrite Forall_forall in Hleaves. apply Hleaves. unfold leaves. apply in_flat_map.
+      exists (IFile n id). split; [exact Hi | left; reflexivity].
+    + inversion Hwi as [|? ? Hn Hne Hsub]; subst. split; [exact Hn|].
+      change (bytes_eqb mode_dir mode_dir) with true. cbv iota.
+      exists (ser sub), (map triple sub). split; [|split].
+      * apply Hsubs. apply (in_dir_subs n sub its Hi).
+      * apply parse_items_ser; [exact Hsub|]. pose proof (ser_length sub Hsub). lia.
+      * destruct sub; [contradiction | discriminate].
+Qed.
+
+(** ** the order in which [write_tree] lists the trees: children first *)
+Section Ready.
+  Variable ids : list bytes.       (* the ids of the staged entries *)
+
+  Definition tree_ready (acc : list bytes) (d : bytes) : Prop :=
+    exists sub, d = ser sub /\ Forall wf_item sub /\ incl (leaves sub) ids /\ incl (subsl sub) acc.
+
+  Fixpoint ready_list (acc : list bytes) (l : list bytes) : Prop :=
+    match l with
+    | [] => True
+    | d :: r => tree_ready acc d /\ ready_list (acc ++ [d]) r
+    end.
+
+  Lemma ready_list_app : forall a acc b,
+    ready_list acc a -> ready_list (acc ++ a) b -> ready_list acc (a ++ b).
+  Proof.
+    induction a as [|d a IH]; intros acc b Ha Hb.
+    - rewrite app_nil_r in Hb. exact Hb.
+    - destruct Ha as [Hd Ha]. cbn [app ready_list]. split; [exact Hd|].
+      apply IH; [exact Ha|]. rewrite <- app_assoc. exact Hb.
+  Qed.
+
+  Definition ready_item (i : item) : Prop :=
+    wf_item i -> incl (leaves_item i) ids -> forall acc, ready_list acc (subs_item i).
+
+  Lemma ready_subsl_aux : forall its, Forall ready_item its ->
+    Forall wf_item its -> incl (leaves its) ids -> forall acc, ready_list acc (subsl its).
+  Proof.
+    induction its as [|i its IH]; intros Hall Hwf Hl acc; [exact Logic.I|].
+    inversion Hall as [|? ? Hi Hr]; subst. inversion Hwf as [|? ? Hwi Hwr]; subst.
+    unfold leaves in Hl. cbn [flat_map] in Hl. apply incl_app_inv in Hl. destruct Hl as [Hl1 Hl2].
+    unfold subsl. cbn [flat_map]. apply ready_list_app.
+    - apply Hi; assumption.
+    - apply IH; assumption.
+  Qed.
+
+  Lemma ready_item_all : forall i, ready_item i.
+  Proof.
+    intro i. induction i as [n id | n sub IH] using item_ind2; intros Hwf Hl acc.
+    - exact Logic.I.
+    - inversion Hwf as [|? ? Hn Hne Hsub]; subst.
+      change (subs_item (IDir n sub)) with (subsl sub ++ [ser sub]).
+      apply ready_list_app.
+      + apply ready_subsl_aux; assumption.
+      + split; [|exact Logic.I]. exists sub. split; [reflexivity|]. split; [exact Hsub|].
+        split; [exact Hl | apply incl_appr; apply incl_refl].
+  Qed.
+
+  Lemma ready_top : forall its, Forall wf_item its -> incl (leaves its) ids ->
+    ready_list [] (subsl its ++ [ser its]).
+  Proof.
+    intros its Hwf Hl. apply ready_list_app.
+    - apply ready_subsl_aux; [|assumption|assumption]. apply Forall_forall. intros i _. apply ready_item_all.
+    - split; [|exact Logic.I]. exists its. split; [reflexivity|]. split; [exact Hwf|].
+      split; [exact Hl | apply incl_appr; apply incl_refl].
+  Qed.
+End Ready.
+
+(* what [write_tree_top] returns, in these terms *)
+Lemma write_tree_top_ready : forall es tr,
+  Forall valid_entry es -> write_tree_top es = Some tr ->
+  ready_list (map e_id es) [] (snd tr ++ [fst tr]).
+Proof.
+  intros es [root subs] Hv H. destruct (write_tree_top_inv es root subs H) as (its & Hg & -> & ->).
+  cbn [fst snd]. unfold group_top in Hg.
+  pose proof (group_wf ix_bytes_eqb_eq _ _ _ Hv Hg) as Hwf.
+  pose proof (group_flat ix_bytes_eqb_eq _ _ _ Hv Hg) as Hflat.
+  apply ready_top; [exact Hwf|]. rewrite <- (leaves_flat its []), Hflat. apply incl_refl.
+Qed.
+
+(** ** what Goit's reader returns from a good store *)
+Section NodeInd.
+  Variable P : node -> Prop.
+  Hypothesis H : forall id name ch, Forall P ch -> P (Node id name ch).
+  Fixpoint node_ind2 (n : node) : P n :=
+    match n with
+    | Node id name ch =>
+        H id name ch ((fix go (l : list node) : Forall P l :=
+                         match l with
+                         | [] => Forall_nil P
+                         | x :: r => Forall_cons x (node_ind2 x) (go r)
+                         end) ch)
+    end.
+End NodeInd.
+
+Inductive node_good (st : store) : node -> Prop :=
+| ng_leaf : forall id name, valid_comp name -> length id = 20 -> blob_ok st id ->
+            node_good st (Node id name [])
+| ng_dir : forall id name c ch, valid_comp name -> length id = 20 ->
+           node_good st c -> Forall (node_good st) ch -> node_good st (Node id name (c :: ch)).
+
+Lemma parse_items_id_len : forall fuel d items,
+  parse_tree_items fuel d = Some items -> Forall (fun it => length (snd it) = 20) items.
+Proof.
+  induction fuel as [|f IH]; intros d items H; cbn [parse_tree_items] in H; [discriminate H|].
+  destruct (split1 c_nul d) as [line rest]. destruct line as [|c line]; [injection H as <-; constructor|].
+  destruct (split1 c_sp (c :: line)) as [mode [name|]]; [|discriminate H].
+  set (r := match rest with Some r => r | None => [] end) in *.
+  destruct (Nat.eqb (length (firstn 20 r)) 20) eqn:E; [|discriminate H].
+  destruct (parse_tree_items f (skipn 20 r)) as [l|] eqn:El; [|discriminate H].
+  injection H as <-. constructor; [apply Nat.eqb_eq in E; exact E | apply (IH _ _ El)].
+Qed.
+
+Lemma wk_go_nonempty : forall rec st items ns, wk_go rec st items = Some ns -> items <> [] -> ns <> [].
+Proof.
+  intros rec st items ns H Hne. destruct items as [|[[mode name] id] r]; [contradiction|].
+  cbn [wk_go] in H.
+  destruct (if bytes_eqb mode mode_dir then match get_kind st KTree id with Some d => rec d | None => None end else Some []) as [ch|];
+    [|discriminate H].
+  destruct (wk_go rec st r) as [ns'|]; [|discriminate H]. injection H as <-. discriminate.
+Qed.
+
+Lemma walk_good : forall st, TreesGood st -> forall fuel d ns,
+  tree_good st d -> walk_tree fuel st d = Some ns -> Forall (node_good st) ns.
+Proof.
+  intros st Hst. induction fuel as [|f IH]; intros d ns Hd H; [discriminate H|].
+  rewrite walk_tree_S in H. destruct Hd as (items & Hp & Hall). rewrite Hp in H.
+  pose proof (parse_items_id_len _ _ _ Hp) as Hlen.
+  clear Hp. revert ns H. induction items as [|[[mode name] id] r IHr]; intros ns H.
+  - injection H as <-. constructor.
+  - inversion Hall as [|? ? [Hn Hit] Hr]; subst. inversion Hlen as [|? ? Hl Hlr]; subst. cbn [snd] in Hl.
+    cbn [wk_go] in H. destruct (bytes_eqb mode mode_dir).
+    + destruct Hit as (d' & its' & Hk & Hp' & Hne). rewrite Hk in H.
+      destruct (walk_tree f st d') as [ch|] eqn:Ew; [|discriminate H].
+      destruct (wk_go (walk_tree f st) st r) as [ns'|] eqn:Er; [|discriminate H].
+      injection H as <-. constructor; [|apply (IHr Hr Hlr _ eq_refl)].
+      pose proof (IH d' ch (Hst _ _ Hk) Ew) as Hch.
+      assert (Hchne : ch <> []).
+      { destruct f as [|f']; [discriminate Ew|]. rewrite walk_tree_S, Hp' in Ew.
+        apply (wk_go_nonempty _ _ _ _ Ew Hne). }
+      destruct ch as [|c ch]; [contradiction|]. inversion Hch; subst. apply ng_dir; assumption.
+    + destruct (wk_go (walk_tree f st) st r) as [ns'|] eqn:Er; [|discriminate H].
+      injection H as <-. constructor; [|apply (IHr Hr Hlr _ eq_refl)].
+      apply ng_leaf; assumption.
+Qed.
+
+Lemma flatten_node_good : forall st n root,
+  (root = [] \/ valid_path root) -> node_good st n -> Forall (entry_good st) (flatten_node root n).
+Proof.
+  intros st n. induction n as [id name ch IH] using node_ind2. intros root Hroot Hn.
+  rewrite flatten_node_eq. inversion Hn as [? ? Hname Hid Hb | ? ? c ch' Hname Hid Hc Hch]; subst.
+  - constructor; [|constructor]. split; [exact Hb|]. split; [exact Hid|].
+    cbn [e_path]. apply valid_path_join; assumption.
+  - assert (Hall : Forall (node_good st) (c :: ch')) by (constructor; assumption).
+    assert (Hr' : join_path root name = [] \/ valid_path (join_path root name)).
+    { right. apply valid_path_join; assumption. }
+    revert IH Hall. generalize (c :: ch'). intros l IH Hall.
+    induction l as [|x l IHl]; [constructor|].
+    inversion IH as [|? ? Hx Hl]; subst. inversion Hall as [|? ? Hgx Hgl]; subst.
+    cbn [flat_map]. apply Forall_app. split; [apply Hx; assumption | apply IHl; assumption].
+Qed.
+
+Lemma flatten_good : forall st ns, Forall (node_good st) ns -> Forall (entry_good st) (flatten [] ns).
+Proof.
+  intros st ns H. unfold flatten. induction H as [|n ns Hn Hns IH]; [constructor|].
+  cbn [flat_map]. apply Forall_app. split; [|exact IH].
+  apply flatten_node_good; [left; reflexivity | exact Hn].
+Qed.
+
+Lemma node_good_children : forall st n, node_good st n -> Forall (node_good st) (n_children n).
+Proof. intros st n H. inversion H; subst; cbn [n_children]; constructor; assumption. Qed.
+
+Lemma node_good_name : forall st n, node_good st n -> valid_comp (n_name n).
+Proof. intros st n H. inversion H; subst; cbn [n_name]; assumption. Qed.
+
+Lemma node_good_leaf : forall st n, node_good st n -> is_leaf n = true ->
+  blob_ok st (n_id n) /\ length (n_id n) = 20.
+Proof.
+  intros st n H Hl. inversion H; subst; cbn [n_id]; [split; assumption|].
+  discriminate Hl.
+Qed.
+
+Lemma get_node_good : forall st fuel ns p n,
+  Forall (node_good st) ns -> get_node_fuel fuel ns p = Some n -> node_good st n /\ valid_path p.
+Proof.
+  intros st. induction fuel as [|f IH]; intros ns p n Hns H; [discriminate H|].
+  cbn [get_node_fuel] in H. destruct (split1 c_slash p) as [name rest] eqn:Es.
+  induction Hns as [|c r Hc Hr IHr]; [discriminate H|].
+  destruct (bytes_eqb (n_name c) name) eqn:En.
+  - apply bytes_eqb_eq in En. destruct rest as [p'|].
+    + destruct (is_leaf c); [apply IHr; exact H|].
+      destruct (get_node_fuel f (n_children c) p') as [x|] eqn:Ex.
+      * injection H as <-. destruct (IH _ _ _ (node_good_children _ _ Hc) Ex) as [Hx Hp'].
+        split; [exact Hx|]. apply tf_split1_some_inv in Es. destruct Es as [-> _].
+        apply valid_path_cons; [rewrite <- En; apply (node_good_name _ _ Hc) | exact Hp'].
+      * apply IHr; exact H.
+    + injection H as <-. split; [exact Hc|]. apply tf_split1_none_inv in Es. destruct Es as [-> _].
+      apply valid_path_comp. rewrite <- En. apply (node_good_name _ _ Hc).
+  - apply IHr; exact H.
+Qed.
+
+(** ** the commit text: which tree and parents the reader finds *)
+Lemma drop_cr_prefix : forall p s, p <> [] -> last p x00 <> c_cr -> exists s', drop_cr (p ++ s) = p ++ s'.
+Proof.
+  intros p s Hne Hlast. unfold drop_cr. destruct (rev (p ++ s)) as [|c l] eqn:E; [exists s; reflexivity|].
+  destruct (beqb c c_cr) eqn:Ec; [|exists s; reflexivity].
+  apply beqb_eq in Ec. subst c.
+  assert (Hps : p ++ s = rev l ++ [c_cr]).
+  { rewrite <- (rev_involutive (p ++ s)), E. reflexivity. }
+  destruct (exists_last (l := s)) as [(s0 & x & ->)|]; [| | ].
+  - intro Hs. subst s. rewrite app_nil_r in Hps. rewrite Hps, last_last in Hlast. apply Hlast. reflexivity.
+  - rewrite app_assoc in Hps. apply app_inj_tail in Hps. destruct Hps as [Hps _].
+    exists s0. rewrite <- Hps. reflexivity.
+Qed.
